@@ -74,6 +74,15 @@ def decode_cond(rd, term, truth, use_bb, depth=0):
             t = t[1]
     if depth > 4:
         return None
+    if t[0] == "var" and rd.local_ty(t[1]) == "bool":
+        # `opt.map_or(false, |b| test(b))` and similar: true only where the non-constant definition holds
+        ds = [d for d in rd.defs().get(t[1], []) if d[2] == "assign"]
+        terms = [rd.term_of_rvalue(d[3]["rv"]) for d in ds]
+        consts = [x for x in terms if x[0] == "const"]
+        others = [x for x in terms if x[0] != "const"]
+        if len(ds) == len(rd.defs().get(t[1], [])) and len(others) == 1 and all(c[1] is False for c in consts) and truth:
+            return decode_cond(rd, others[0], True, use_bb, depth + 1)
+        return None
     if t[0] == "field" and isinstance(t[2], str) and len(t) > 4 and t[4] == SPEC:
         base = strip_refs(t[1])
         if base[0] == "var":
@@ -100,18 +109,46 @@ def decode_cond(rd, term, truth, use_bb, depth=0):
     if t[0] == "bin" and t[1] in ("Ne", "Eq") and t[3][0] == "const" and isinstance(t[3][1], int):
         lhs, k = t[2], t[3][1]
 
+        def cfold(z):
+            """value of a constant integer expression, or None"""
+            z = strip_refs(z)
+            while z[0] == "cast":
+                z = strip_refs(z[1])
+            if z[0] == "const" and isinstance(z[1], int) and not isinstance(z[1], bool):
+                return z[1]
+            if z[0] == "field" and z[3] == 0 and z[1][0] == "bin" and z[1][1].endswith("WithOverflow"):
+                z = ("bin", z[1][1].replace("WithOverflow", ""), z[1][2], z[1][3])
+            if z[0] == "bin":
+                a_, b_ = cfold(z[2]), cfold(z[3])
+                if a_ is None or b_ is None:
+                    return None
+                op_ = z[1]
+                try:
+                    return {"Add": a_ + b_, "Sub": a_ - b_, "Mul": a_ * b_, "Div": a_ // b_ if b_ else None, "Rem": a_ % b_ if b_ else None,
+                            "Shr": a_ >> b_, "Shl": a_ << b_, "BitAnd": a_ & b_, "BitOr": a_ | b_}.get(op_)
+                except (ValueError, OverflowError):
+                    return None
+            return None
+
         def classify(x):
             y = strip_refs(x)
-            if y[0] == "call" and "ops::Index" in y[1] and len(y[2]) > 1 and y[2][1][0] == "const":
-                return "f%d" % y[2][1][1]
-            if y[0] == "index" and y[2][0] == "const":
-                return "f%d" % y[2][1]
+            if y[0] == "call" and "ops::Index" in y[1] and len(y[2]) > 1 and cfold(y[2][1]) is not None:
+                return "f%d" % cfold(y[2][1])
+            if y[0] == "index" and cfold(y[2]) is not None:
+                return "f%d" % cfold(y[2])
+            # the payload of `flags.get(k)` (taken on the Some arm)
+            if y[0] == "field" and y[1][0] == "downcast" and y[1][2] == "Some":
+                g = strip_refs(y[1][1])
+                if g[0] == "call" and g[1].endswith("<impl [T]>::get") and len(g[2]) == 2 and cfold(g[2][1]) is not None:
+                    return "f%d" % cfold(g[2][1])
             # the first byte of the record, before it is stored in the vector
             if any(z[0] == "call" and z[1].endswith("read_u8") for z in walk(y)) and not any(z[0] == "bin" for z in walk(y)):
                 return "f0"
             return None
 
         def rw(x):
+            if x[0] == "bin" and x[1] in ("Shr", "Shl") and x[3][0] != "const" and cfold(x[3]) is not None:
+                return ("bin", x[1], rw(x[2]), ("const", cfold(x[3]), "u32")) + tuple(x[4:])
             if x[0] == "bin" and x[1] == "Rem" and x[3][0] == "const" and x[3][1] > 0 and x[3][1] & (x[3][1] - 1) == 0:
                 return ("bin", "BitAnd", rw(x[2]), ("const", x[3][1] - 1, x[3][2]))
             if x[0] == "bin":
@@ -153,11 +190,18 @@ def reader_table(facts, rd):
         if rd.blocks[bi]["cleanup"] or bi not in idx:
             continue
         e0 = s["lhs"]["p"][0]
-        if not (isinstance(e0, dict) and e0.get("adt") == SPEC):
+        fld = None
+        if isinstance(e0, dict) and e0.get("adt") == SPEC:
+            fld = e0["name"]
+        elif s["lhs"]["p"] == ["deref"]:
+            # `*slot = ..` where slot is `&mut spec.field` (table-driven readers)
+            tl = strip_refs(rd.term_of_local(s["lhs"]["l"]))
+            if tl[0] == "field" and len(tl) > 4 and tl[4] == SPEC and isinstance(tl[2], str):
+                fld = tl[2]
+        if fld is None:
             continue
-        fld = e0["name"]
         t = rd.term_of_rvalue(s["rv"])
-        g = guards(rd, bi, cd)
+        g = dom_guards(rd, bi, cd)
         bit = "always"
         long_form = False
         unknown = []
@@ -359,7 +403,7 @@ def writer_table(facts, ap):
             continue
         pred = None
         long_form = False
-        for (a, succ, c) in guards(ap, bb, cd):
+        for (a, succ, c) in dom_guards(ap, bb, cd):
             ct = cond_truth(c)
             if not ct:
                 continue
@@ -491,17 +535,28 @@ def helper_checks(facts, rep, R1):
         if name == "read_flag_str":
             # index/8 selects the byte, index%8 the bit; read iff the bit is set and the byte exists
             good = False
+            wrong = None
+            seen_read = False
             for p in ps:
                 reads = [e for e in p.events if e["k"] == "call" and e["callee"] and e["callee"].endswith("::read_string")]
                 for (bb, term, vals, neg, dty) in p.conds:
                     pass
                 if reads:
                     txt = " ".join(fmt(norm(c[1])) for c in p.conds)
-                    good = "Div(index, 8)" in txt and "Rem(index, 8)" in txt and "Shl(1" in txt
+                    byte_ok = "Div(index, 8)" in txt or "Shr(index, 3)" in txt
+                    bit_ok = "Rem(index, 8)" in txt or "BitAnd(index, 7)" in txt
+                    test_ok = "Shl(1" in txt or ("Shr(" in txt and "BitAnd(" in txt)
+                    good = byte_ok and bit_ok and test_ok
+                    seen_read = True
+                    other = [k for k in re.findall(r"(?:Div|Rem|Shr|BitAnd)\(index, (\d+|0x[0-9a-f]+)\)", txt) if int(k, 0) not in (8, 3, 7)]
+                    if other:
+                        wrong = other
             if good:
                 rep.ok(R1, {"helper": name, "bit": "flags[index/8] & (1 << index%8)"})
+            elif wrong:
+                rep.violation(R1, b.name, "helper-bit", "read_flag_str splits the flag index with constant(s) %s (specified: byte index/8, bit index%%8)" % wrong, "%s:%s" % (b.file, b.line))
             else:
-                rep.violation(R1, b.name, "helper-bit", "read_flag_str does not test bit index%8 of byte index/8", "%s:%s" % (b.file, b.line))
+                rep.inconc(R1, "read_flag_str: the test of bit index%8 of byte index/8 was not recognised")
         else:
             good = True
             for p in ps:
@@ -788,5 +843,7 @@ def container_rules(facts, rep, R3):
         rep.violation(R3, par.name, "container-flags", "reader does not start with the u32 flags word", "%s:%s" % (par.file, par.line))
     if push_on_ok and stop_on_err:
         rep.ok(R3, {"reader": "push each Ok spec, stop at the first Err"})
+    elif not any(term[0] == "discr" and term[1][0] == "call" and term[1][1].endswith("::from_stream") for p in ps for (bb, term, vals, neg, dty) in p.conds):
+        rep.inconc(R3, "from_archive: how the result of from_stream is consumed was not recognised")
     else:
         rep.violation(R3, par.name, "container-loop", "reader loop does not (push on Ok, stop on Err)", "%s:%s" % (par.file, par.line))
